@@ -249,11 +249,9 @@ func TestVReplay(t *testing.T) {
 	ov := map[string]string{}
 	for v, r := range l.Overlay {
 		if strings.HasSuffix(v, "zz_verif_rt.go") {
-			if filepath.Dir(v) != filepath.Join(RepoDir, rel) {
-				continue
-			}
 			b, _ := os.ReadFile(r)
-			rp := filepath.Join(dir, "zz_verif_rt.go")
+			rrel, _ := filepath.Rel(RepoDir, filepath.Dir(v))
+			rp := filepath.Join(dir, "rt_"+strings.ReplaceAll(rrel, "/", "_")+".go")
 			os.WriteFile(rp, b, 0o644)
 			ov[v] = rp
 			continue
